@@ -228,6 +228,7 @@ Verdict(e) ==
                P_C06_Bytes |-> P_C06_Bytes(e),
                P_C06_NewEntry |-> P_C06_NewEntry(e),
                P_C14_Frame |-> P_C14_Frame(e, pre, post),
+               P_C14_Scope |-> P_C14_Scope(pre, post, dk, o, ign),
                P_C14_DiskSame |-> e.pre.disk = e.post.disk,
                P_C11_Valid |-> P_C11_Valid(e),
                P_C10_Reread |-> \A j \in DOMAIN e.post.hist : \A i \in DOMAIN e.post.hist[j].gens : e.post.hist[j].gens[i].reread_ok,
@@ -292,14 +293,14 @@ Verdict(e) ==
               A_nested |-> Cardinality(Visible(pre, dk, o.R)) > 1,
               A_ign |-> ign # {}]
      ELSE IF o.op = "verifydh"
-     THEN LET m == VerifyDHResult(pre, dk, o.R, o.Pabs)
+     THEN LET m == VerifyDHResultX(pre, dk, o.R, o.Pabs, o.h, o.co, o.ro)
           IN base @@
              [kind |-> "verifydh",
-              M_exit |-> (o.h = "" /\ ~o.co) => m.exit = ob.exit,
+              M_exit |-> m.exit = ob.exit,
               P_C09_Identical |-> P_C09_Identical(pre, dk, o, ob),
               P_C09_Detects |-> P_C09_Detects(pre, dk, o, ob),
               P_C09_NoInternal |-> P_C09_NoInternal(o, ob),
-              A_uniform |-> UniformFormats(pre, dk, o.R),
+              A_uniform |-> (o.h = "" => UniformFormats(pre, dk, o.R)),
               A_dh |-> \E h \in Visible(pre, dk, o.R) : DHGens(pre, h) # {},
               A_changed |-> DHGens(pre, o.R) # {} /\ \A i \in DHGens(pre, o.R) : ~SameAsGen(pre, dk, o.R, i, o.R, ob.eff)]
      ELSE IF o.op = "flatten"
@@ -320,8 +321,9 @@ Verdict(e) ==
                                                             => Rel(o.R, p) \in DOMAIN fl0.files]
           IN base @@
              [kind |-> "verifypl",
-              P_C18_VerifyPL |-> P_C18_VerifyPL(dk, <<>>, o, ob, fl, ign),
-              A_flat |-> TRUE]
+              \* flatten of a history that never recorded a file writes no packing list: nothing to verify against
+              P_C18_VerifyPL |-> fl0.proc = "none" \/ P_C18_VerifyPL(dk, <<>>, o, ob, fl, ign),
+              A_flat |-> fl0.proc # "none"]
      ELSE IF o.op = "info"
      THEN LET ob2 == [exit |-> e.exit, listing |-> ToFn(e.info, LAMBDA x : x.h, LAMBDA x : x.ns)]
           IN base @@
